@@ -293,6 +293,12 @@ impl Interp {
                 let res = match c[2].as_u64().unwrap_or(0) {
                     0 => ring.submit(),
                     1 => ring.submit_and_wait(1),
+                    3 => {
+                        // malformed timespec: must be refused before anything is scheduled
+                        let ts = types::Timespec::new().sec(1).nsec(1_000_000_000);
+                        let args = types::SubmitArgs::new().timespec(&ts);
+                        ring.submitter().submit_with_args(1, &args)
+                    }
                     _ => {
                         let ts = types::Timespec::new().sec(1).nsec(5);
                         let args = types::SubmitArgs::new().timespec(&ts);
